@@ -4,21 +4,25 @@
    N, Z, positive, nat stay the extracted inductive types; there is no
    Extract Constant / Extract Inductive of ours. *)
 From Coq Require Import ExtrOcamlBasic ExtrOcamlString.
-From TM Require Import Base Mapper Monitors MapperRepeat Absorb.
+From TM Require Import Base Mapper Monitors MapperRepeat Absorb SpecTables.
 From TMGen Require Import Modifiers.
 
 Definition x_is_action : key -> bool := Modifiers.is_action_key.
 Definition x_mstep := mstep x_is_action.
-Definition x_check_step := check_step x_is_action.
+(* the checkers classify keys as the PROPERTIES do (the eight standard modifiers of SpecTables); the model
+   step uses the code's own classification (regenerated).  ModifierSpec.is_action_key_is_spec proves the two
+   equal on the unchanged tree. *)
+Definition x_spec_is_action (k : key) : bool := negb (spec_is_modifier k).
+Definition x_check_step := check_step x_spec_is_action.
 Definition x_for_layout_ok := for_layout_ok.
 Definition x_init := init.
 Definition x_apply_evs := apply_evs.
 Definition x_phys_after := phys_after.
 Definition x_expected_repeat := expected_repeat.
-Definition x_c08_check := c08_check x_is_action.
+Definition x_c08_check := c08_check x_spec_is_action.
 Definition x_ag_step := ag_step.
 Definition x_ag_init := ag_init.
-Definition x_K1 := K1 x_is_action.
-Definition x_K2 := K2 x_is_action.
+Definition x_K1 := K1 x_spec_is_action.
+Definition x_K2 := K2 x_spec_is_action.
 
 Extraction "model.ml" x_is_action x_mstep x_check_step x_for_layout_ok x_init x_apply_evs x_phys_after x_expected_repeat x_c08_check x_ag_step x_ag_init x_K1 x_K2.
